@@ -1,7 +1,8 @@
 (* C06 -- property theorems only. *)
-From Coq Require Import Reals ZArith.
+From Coq Require Import Reals ZArith Lra.
 From Flocq Require Import Core.Raux.
-From WNTRV Require Import C06.Model C06.Proofs.
+From WNTRV Require Import C06.Model C06.Proofs C05.Tank C06.Limits.
+From Interval Require Import Tactic.
 Local Open Scope R_scope.
 
 Theorem C06_cyl_integration : forall h q dt d, 0 < d -> volume d (new_head h q dt d) - volume d h = q * dt.
@@ -20,6 +21,24 @@ Theorem C06_backtrack_no_overshoot_falling : forall cur thr d q,
   let b := backtrack cur thr d q in
   (0 <= b)%Z /\ level_back cur d q b <= thr /\ thr - (- q) / area d < level_back cur d q b.
 Proof. exact backtrack_no_overshoot_falling. Qed.
+(* over a whole run: full steps above the minimum, the crossing step cut by the whole-second backtrack, no net outflow once the tank's
+   links are closed (assumption on the hydraulics, cf. C02_closed_zero_flow): the level never falls more than one second of the largest
+   flow below the minimum level; symmetrically above the maximum *)
+Theorem C06_min_level_invariant : forall d mn qmax, 0 < d -> 0 <= qmax -> forall L0 L, mn <= L0 -> reach d mn qmax L0 L ->
+  mn - qmax / area d < L \/ (mn - qmax / area d <= L /\ qmax = 0).
+Proof. exact min_level_invariant. Qed.
+Theorem C06_max_level_invariant : forall d mx qmax, 0 < d -> 0 <= qmax -> forall L0 L, L0 <= mx -> reach_max d mx qmax L0 L ->
+  L < mx + qmax / area d \/ (L <= mx + qmax / area d /\ qmax = 0).
+Proof. exact max_level_invariant. Qed.
+(* non-vacuity: a tank of diameter 2 m at level 2 m losing 1 m3/s for 10 s crosses its minimum level 1 m: the cut step applies *)
+Example C06_cut_step_applies : exists L', step 2 1 1 2 L'.
+Proof.
+  eexists. apply (s_cut 2 1 1 2 (-1) 10%Z); try lra; try reflexivity.
+  - unfold level_after, area. interval.
+  - rewrite Rabs_left by lra. lra.
+Qed.
 Print Assumptions C06_cyl_integration.
+Print Assumptions C06_min_level_invariant.
+Print Assumptions C06_max_level_invariant.
 Print Assumptions C06_backtrack_no_overshoot_rising.
 Print Assumptions C06_backtrack_no_overshoot_falling.
